@@ -992,7 +992,7 @@ class SimOS:
         if not k.owns(path):
             return REAL_OS.stat(path, *a, **kw)
         k._access("stat", k._norm(path), k.pid_of_path(path))
-        return self._stat_node(path, True)
+        return self._stat_node(path, bool(kw.get("follow_symlinks", True)))
 
     def lstat(self, path, *a, **kw):
         k = self._k
